@@ -619,6 +619,9 @@ func checkPooledBytes(c *Ctx, rule string) {
 					if name == "Write" {
 						continue
 					}
+					if g := staticCallee(cc); g != nil && (g.String() == "bytes.Clone" || g.String() == "slices.Clone") {
+						continue
+					}
 				}
 				bad = ri
 			}
